@@ -169,7 +169,9 @@ func buildHarness(name string) (string, error) {
 	cmd.Dir = verifDir + "/harness"
 	out, err := cmd.CombinedOutput()
 	if err != nil {
-		return "", fmt.Errorf("harness build failed: %v: %s", err, out)
+		// a replay harness that does not build is an engine fault, not a verdict
+		fmt.Printf("ERROR: replay harness %s does not build: %v: %s\n", name, err, out)
+		os.Exit(2)
 	}
 	return bin, nil
 }
